@@ -1,5 +1,7 @@
 """C06  Convergence: a successful run leaves everything complete; re-run is a no-op."""
 
+import os
+
 from hypothesis import strategies as st
 
 from vlib import gen, hist, model, project
@@ -13,7 +15,8 @@ TECHNIQUE = ("Hypothesis-generated run / execute / perturb histories on simulate
 RULE = ("case = well-formed workflow (3-7, thorough 10 targets) + initial file ticks + backend slurm(accounting on/off)|"
         "sge|lsf|local + initial backend vector over unknown/completed/failed/cancelled (no job in flight) + spec hashing "
         "on/off + a list of integers choosing which legal scheduler transition (start any releasable job / finish any "
-        "running job) happens next + 1-3 perturbation rounds (modify one source | delete one output) + per-job choice of "
+        "running job) happens next + 1-3 perturbation rounds (modify one source | delete one output | change only the "
+        "metadata of a file: chmod + hard link) + per-job choice of "
         "output mtime (fresh tick or tie with the newest input). Oracle: after `gwf run` and a successful drain every "
         "target of the cone that declares outputs is completed in `gwf status`, and a second `gwf run` submits only "
         "targets without outputs; after a perturbation the submitted set equals consumers-of-the-modified-file / "
@@ -39,7 +42,7 @@ def _case(draw, tier):
                                shapes=(0, 2, 4, 5), spellings=(0, 1, 2)))
     names = [t["name"] for t in desc["targets"]]
     vec = {n: draw(st.sampled_from(["unknown", "unknown", "completed", "failed", "cancelled"])) for n in names}
-    rounds = draw(st.lists(st.tuples(st.sampled_from(["modify", "delete"]), st.integers(0, 20)), min_size=1, max_size=3))
+    rounds = draw(st.lists(st.tuples(st.sampled_from(["modify", "delete", "metadata"]), st.integers(0, 20)), min_size=1, max_size=3))
     return {"desc": desc, "invoke": draw(gen.invoke()), "backend": draw(st.sampled_from(["slurm", "slurm", "sge", "lsf"])),
             "accounting": draw(st.sampled_from([True, True, False])), "vector": vec,
             "hashing": draw(st.sampled_from([False, True])),
@@ -156,6 +159,17 @@ def run_case(case):
                     fh.write("modified\n")
                 proj.stamp(f, proj.next_tick())
                 seeds = {t.name for t in R.targets if f in t.inset}
+            elif kind == "metadata" and [p for p in srcs + outs if os.path.exists(proj.path(p))]:
+                # permissions change and the file gets a second name (chmod, ln): neither its content nor its
+                # modification time changes, so nothing has to run again
+                present = [p for p in srcs + outs if os.path.exists(proj.path(p))]
+                f = present[k % len(present)]
+                os.chmod(proj.path(f), os.stat(proj.path(f)).st_mode ^ 0o040)
+                os.makedirs(proj.path("_links"), exist_ok=True)
+                link = proj.path(os.path.join("_links", f.replace("/", "__") + f".{k}"))
+                if not os.path.lexists(link):
+                    os.link(os.path.realpath(proj.path(f)), link)
+                seeds = set()
             elif outs:
                 f = outs[k % len(outs)]
                 proj.set_files({f: None})
